@@ -207,8 +207,8 @@ Lemma witness_run :
   let r := ARec (bs "a"%bs) (bs " d"%bs) (bs "ACGTACGTACGT"%bs) 5 in
   let f := [FAbs true true [ARec (bs "p"%bs) [] (bs "TT"%bs) 3; r; ARec (bs "q"%bs) [] (bs "GGGG"%bs) 2]] in
   wf_rec MODE_DB 2 r = true
-  /\ wf_C09 MODE_DB 0 true f [Query 0 (bs "a"%bs) (Some (Some 3%Z, Some 8%Z))] = true
-  /\ out (run_C09 MODE_DB 0 true f [Query 0 (bs "a"%bs) (Some (Some 3%Z, Some 8%Z)); Query 0 (bs "a"%bs) (Some (Some 9%Z, Some 30%Z));
+  /\ wf_C09 MODE_DB 0 true [0] f [Query 0 (bs "a"%bs) (Some (Some 3%Z, Some 8%Z))] = true
+  /\ out (run_C09 MODE_DB 0 true [0] f [Query 0 (bs "a"%bs) (Some (Some 3%Z, Some 8%Z)); Query 0 (bs "a"%bs) (Some (Some 9%Z, Some 30%Z));
                                      Query 0 (bs "a"%bs) (Some (Some 20%Z, Some 30%Z))])
      = out (VL [VB true; VL [VL [VI 44; VI 3386509425]];
                 VL [VI 3; VL [VL [VS (bs "a"%bs); VS (bs "a d"%bs); VS (bs "TACGT"%bs)];
